@@ -226,8 +226,68 @@ let process_realm line =
     | Some cs -> String.concat ";" (Stdlib.List.map show_rchange cs) in
   id ^ " " ^ obs ^ "\n"
 
+(* round 5: table attributes (DiffTableAttrs.v) *)
+let parse_table_x () =
+  let cm = next_opt () in
+  let cs = next_opt () in
+  let co = next_opt () in
+  let en = match next () with
+    | "~" -> None
+    | s -> (match String.split_on_char ':' s with
+            | [v; d] -> Some (bytes_of_string (unhex v), d = "1")
+            | _ -> failwith "engine") in
+  let ai = match next () with "~" -> None | s -> Some (n_of_int (int_of_string s)) in
+  let sv = next_bool () in
+  let pt = next_opt () in
+  let t = parse_table () in
+  { tx_table = t; tx_comment = cm; tx_charset = cs; tx_collate = co; tx_engine = en; tx_autoinc = ai;
+    tx_sysver = sv; tx_partition = pt }
+
+let parse_schema_tx () =
+  let name = next_str () in
+  let cs = next_opt () in
+  let co = next_opt () in
+  let n = next_int () in
+  let ts = times n parse_table_x in
+  { stx_name = name; stx_charset = cs; stx_collate = co; stx_tables = ts }
+
+(* <id> S|T <dialect> <mask> <schema_tx> <schema_tx>; T = TableDiff of the first tables *)
+let process_tattrs line =
+  toks := Array.of_list (Stdlib.List.filter (fun s -> s <> "") (String.split_on_char ' ' line));
+  pos := 0;
+  let id = next () in
+  let op = next () in
+  let dialect = next () in
+  let mask = next_int () in
+  let from = parse_schema_tx () in
+  let to_ = parse_schema_tx () in
+  let skip = skip_of_mask mask in
+  let schema_diff, table_diff = match dialect with
+    | "mysql" -> let v = my_variant "default" in mysql_schema_diff_tx v, mysql_table_diff_tx v
+    | "postgres" -> pg_schema_diff_tx [], pg_table_diff_tx []
+    | d -> failwith ("dialect " ^ d) in
+  let obs = match op with
+    | "S" ->
+      (match schema_diff skip from to_ with
+       | None -> "err"
+       | Some [] -> "[]"
+       | Some cs -> String.concat ";" (Stdlib.List.map show_schange cs))
+    | "T" ->
+      (match from.stx_tables, to_.stx_tables with
+       | t1 :: _, t2 :: _ ->
+         (match table_diff skip from.stx_charset from.stx_collate t1 t2 with
+          | None -> "err"
+          | Some cs -> show_subs cs)
+       | _ -> "err")
+    | o -> failwith ("op " ^ o) in
+  id ^ " " ^ obs ^ "\n"
+
 let () =
   let dialect = if Array.length Sys.argv > 1 then Sys.argv.(1) else "sqlite" in
+  if dialect = "tattrs" then begin
+    (try while true do let l = input_line stdin in if l <> "" then print_string (process_tattrs l) done with End_of_file -> ());
+    exit 0
+  end;
   if dialect = "realm" then begin
     (try while true do let l = input_line stdin in if l <> "" then print_string (process_realm l) done with End_of_file -> ());
     exit 0
